@@ -22,6 +22,11 @@
  *      area callback answering IO_ERROR), and then the block write is decided
  *      against the flat model evaluated on the storage as that operation left
  *      it.  The result of the earlier operation is not judged.
+ *
+ * A table that register_init refuses ends its cases as trivial ones
+ * (init-refused): whether a description is accepted is C04's sentence.  An
+ * infinite or subnormal float overlay that also lies outside the register's
+ * constraint may be refused as invalid or as out-of-range (regtab.h).
  */
 #include "mc.h"
 #include "regfam.h"
@@ -749,6 +754,7 @@ hist_table_quick(const struct tspec *s, bool ext)
 }
 
 static bool g_ext; /* the table being run belongs to the extended family */
+static bool g_init_refused; /* register_init did not accept the table being run */
 
 static void
 run_table(const struct tspec *s, int ti)
@@ -819,15 +825,14 @@ run_table(const struct tspec *s, int ti)
                         obj_save();
                         memset(g_words0, 0, sizeof g_words0);
                         flat_snapshot(&tb, g_words0);
-                        if (ri.code != REG_INIT_SUCCESS) {
-                            mc_fail("C02/setup-init", "register_init of a well-formed table failed with code %d at %u", ri.code, ri.pos.entry);
-                            mc_end(false, "init-failed");
-                            continue;
-                        }
+                        g_init_refused = ri.code != REG_INIT_SUCCESS;
+                        if (g_init_refused && mc.verbose)
+                            mc_log("register_init refused the table with code %d at %u", ri.code, ri.pos.entry);
                     }
-                    if (!(obj_t.flags & REG_TF_INITIALISED)) {
-                        mc_fail("C02/setup-init", "table not initialised");
-                        mc_end(false, "init-failed");
+                    if (g_init_refused) {
+                        /* whether initialisation accepts a table is C04's sentence;
+                         * the statement here starts from a table that is in use */
+                        mc_end(false, "init-refused");
                         continue;
                     }
                     g_hist = hi < 0 ? NULL : &H[hi];
